@@ -58,6 +58,8 @@ def _lib(ctx, name, p):
         return lambda x, y: -y * y
     if name == 'ode_poly':     # y' = 3x^2 + 2a x + b   (solution: polynomial)
         return lambda x, y: 3 * x * x + 2 * a * x + b
+    if name == 'ode_xpow':     # y' = x^(8a+2b): a polynomial right-hand side of high degree (10..30)
+        return lambda x, y: x ** (8 * a + 2 * b)
     if name == 'ode_tri':      # triangular linear system y0' = -a y0 + b y1, y1' = -(a+1) y1
         return lambda x, y: [-a * y[0] + b * y[1], -(a + 1) * y[1]]
     if name == 'lap_exp':      # 1/(p+a)
